@@ -15,8 +15,8 @@ run_demo() { # prints PASS or FAIL
     pkg=$(head -1 $demo | sed -n 's/.*copy to \([^ ]*\).*/\1/p' | sed 's#/$##')
     [ -z "$pkg" ] && pkg=render
     cp $demo $W/$pkg/zz_seed_demo_test.go
-    tname=$(grep -o 'func Test[A-Za-z0-9_]*' $demo | head -1 | sed 's/func //')
-    if (cd $W/$pkg && timeout 300 go test -vet=off -count=1 -run "^${tname}\$" . >/tmp/seed-demo-$$.log 2>&1); then echo PASS; else echo FAIL; fi
+    tname=$(grep -o 'func Test[A-Za-z0-9_]*' $demo | sed 's/func //' | paste -sd'|')
+    if (cd $W/$pkg && timeout 600 go test -vet=off -count=1 -run "^(${tname})\$" . >/tmp/seed-demo-$$.log 2>&1); then echo PASS; else echo FAIL; fi
     rm -f $W/$pkg/zz_seed_demo_test.go
   else
     m=$(ls -d $DIR/demo* $DIR/main.go 2>/dev/null | head -1)
